@@ -17,15 +17,21 @@ def main():
     sid = sys.argv[1]
     props = [sid[:3]]
     tier = "quick"
+    base = "/tmp/seed"
+    suffix = ""
     for i, a in enumerate(sys.argv):
         if a == "--props":
             props = sys.argv[i + 1].split(",")
         if a == "--tier":
             tier = sys.argv[i + 1]
-    wt = f"/tmp/seed/{sid}"
+        if a == "--dir":
+            base = sys.argv[i + 1]
+        if a == "--suffix":
+            suffix = sys.argv[i + 1]
+    wt = f"{base}/{sid}"
     seed = os.path.join(wt, "SEED")
     env = dict(os.environ, PYTHONPATH=f"{wt}/src")
-    meta = {"id": sid, "breaks_property": sid[:3], "confirmed_at": time.strftime("%Y-%m-%d %H:%M:%S"), "ran": []}
+    meta = {"id": sid + suffix, "breaks_property": sid[:3], "confirmed_at": time.strftime("%Y-%m-%d %H:%M:%S"), "ran": []}
     # patch state must equal SEED/patch.diff
     rc, cur = sh("git diff -- src protocol_code_generator", cwd=wt)
     same = cur.strip() == open(os.path.join(seed, "patch.diff")).read().strip()
@@ -56,7 +62,7 @@ def main():
     meta["checks"] = results
     notes = open(os.path.join(seed, "notes.md")).read()
     meta["needs_to_manifest"] = notes.strip()[:1500]
-    dst = os.path.join(HERE, "seeded", sid)
+    dst = os.path.join(HERE, "seeded", sid + suffix)
     os.makedirs(dst, exist_ok=True)
     shutil.copy(os.path.join(seed, "patch.diff"), dst)
     shutil.copy(os.path.join(seed, "notes.md"), dst)
